@@ -419,6 +419,12 @@ class SqlImpl(TableImpl):
             # The grouping columns are used by a later `summarize` / window function.
             for col in query.partition_by:
                 needed_cols.setdefault(col._uuid, 1)
+            # The row order is taken over by the outer query (the earlier order breaks
+            # the ties of a later `arrange`), so it needs the columns of the sort keys.
+            for ord in query.order_by:
+                for node in ord.order_by.iter_subtree_postorder():
+                    if isinstance(node, Col):
+                        needed_cols.setdefault(node._uuid, 1)
 
             original_select = query.select
             query.select = []
@@ -454,6 +460,7 @@ class SqlImpl(TableImpl):
             query = Query(
                 [uid for uid in original_select if uid in sqa_expr],
                 partition_by=query.partition_by,
+                order_by=query.order_by,
             )
 
         elif isinstance(nd, verbs.Select):
